@@ -50,6 +50,7 @@ func (f *Remhash) Call(s *slip.Scope, args slip.List, depth int) (result slip.Ob
 	if !ok {
 		slip.TypePanic(s, depth, "hash-table", args[1], "hash-table")
 	}
+	checkHashKey(s, depth, args[0])
 	_, has := ht[args[0]]
 	delete(ht, args[0])
 	if has {
